@@ -277,8 +277,13 @@ def run_case(case):
                     ts.sigma = float(rng_e.choice([0.05, 0.1, 0.25]))
                     n_edit += 1
                 elif u_ < 0.75 and ts.has_time_data:
-                    ts.insert(float(max(ts.t)) + 1.0, float(ts.vals[-1]))
-                    n_edit += 1
+                    # a value for a year of the table that this row had left blank (the table's own years decide which columns
+                    # are written - documented - so a year outside them is not content of the workbook)
+                    free_years = [float(y) for y in np.asarray(tdve.tvec, dtype=float) if float(y) not in [float(x) for x in ts.t]]
+                    if free_years:
+                        y_new = free_years[int(rng_e.integers(0, len(free_years)))]
+                        ts.insert(y_new, float(ts.interpolate(y_new)[0]))  # (on the interpolant: the parameter set built before the edit still describes these data)
+                        n_edit += 1
         for tdc in list(P.data.transfers) + list(P.data.interpops):
             for key, ts in tdc.ts.items():
                 if rng_e.random() < 0.5:
